@@ -170,7 +170,10 @@ def zero_start_problems(kind):
     """start points with a zero coordinate (a class of its own: the reference's initial simplex uses zdelt there)"""
     out = []
     for fn, n, x0 in (("abs", 2, [0.0, 0.0]), ("sphere", 2, [0.0, 1.5]), ("ill", 4, [-2.5, 0.0, 2.54, 0.0]),
-                      ("rosen", 3, [0.0, 0.0, 0.0])):
+                      ("rosen", 3, [0.0, 0.0, 0.0]),
+                      # ... and coordinates that are tiny but NOT zero (they take the relative step like any other)
+                      ("sphere", 2, [1e-9, 1.5]), ("abs", 2, [-3e-10, 5e-324]), ("rosen", 3, [1.0, 2e-12, -1e-8]),
+                      ("sphere", 2, [-0.0, 1e-300])):
         out.append({"kind": kind, "fn": fn, "n": n, "seed": -1, "x0": list(x0), "mode": "fmin", "ftol": 1e-4, "xtol": 1e-4,
                     "maxiter": None, "maxfun": None, "radius": 0.05, "adaptive": False, "direc": None, "zero": True})
     return out
